@@ -374,6 +374,17 @@ pub fn run_c(seed: u64, mut ov: impl FnMut(&mut engine::Cfg)) -> ! {
     let mut cfg = swarm_cfg(seed, &Swarm { est_len: 4000, ..swarm() });
     // mostly LIFO reuse, sometimes poison
     cfg.alloc_mode = if r.chance(4, 5) { 1 } else { 2 };
+    // The ABA case needs a taker that sleeps between reading head / tail and its CAS while the
+    // others consume two whole blocks (the freed block comes back at the same address). Aim
+    // for it: in 3 of 4 runs one to three stalls of some hundred steps' worth of virtual time
+    // (time passes 25 ns per step while somebody runs), anywhere in spmc.rs
+    if r.chance(3, 4) {
+        cfg.stall_budget = r.range(1, 3) as u32;
+        cfg.stall_ppm = 15 * cfg.stall_budget;
+        cfg.stall_focus = &["may_queue/src/spmc.rs"];
+        cfg.stall_max_ns = *r.pick(&[8_000u64, 15_000, 30_000, 60_000]);
+        cfg.tick_ns = 25;
+    }
     ov(&mut cfg);
     engine::init(cfg);
     engine::set_extra("params", engine::json_str(&format!("pushes {} consumers {} burst {}", pushes, n_cons, burst)));
@@ -457,6 +468,176 @@ pub fn run_c(seed: u64, mut ov: impl FnMut(&mut engine::Cfg)) -> ! {
         Err(_) => violation("harness: queue still shared"),
     }
     check_all_taken(&all_ids.lock().unwrap());
+    engine::set_extra("alloc_reuse", format!("{}", crate::alloc::REUSED.load(Ordering::Relaxed)));
+    engine::finish_ok()
+}
+
+// ------------------------------------------------------------------------------------------------
+// family D: the ABA case, aimed. A taker reads head / tail, is held up right before its CAS
+// (a scenario-placed stall), the others consume exactly two blocks' worth so that the freed head
+// block comes back at the same address (allocator LIFO mode) with head at the same slot, and the
+// stale CAS succeeds: the taker has now claimed slots the owner has not filled yet and must wait
+// for them ("completes as soon as that slot has been filled"), never hand out what is there
+// ------------------------------------------------------------------------------------------------
+
+#[derive(Debug)]
+struct ParamsD {
+    /// pushed / popped before the taker starts (head = popped, tail = pushed)
+    pushed: usize,
+    popped: usize,
+    /// the taker uses bulk_pop (else pop)
+    bulk: bool,
+    /// the stall is placed at this schedule point of the taker's call
+    stall_at: u32,
+    /// consumed by the helper while the taker is held up (64 = same address, same slot)
+    consume: usize,
+    /// how many of the slots the stale claim covers are published when the taker wakes up
+    published: usize,
+    poison: bool,
+}
+
+fn gen_d(seed: u64) -> ParamsD {
+    let mut r = gen_rng(seed);
+    let pushed = match r.below(4) {
+        0 => r.range(1, 31) as usize,
+        1 => r.range(33, 63) as usize,
+        _ => r.range(1, 100) as usize,
+    };
+    let left = r.range(1, 8).min(pushed as u64) as usize;
+    let popped = pushed - left;
+    let consume = match r.below(10) {
+        0 => 32,
+        1 => 63,
+        2 => 65,
+        3 => 128,
+        _ => 64,
+    };
+    ParamsD { pushed, popped, bulk: r.chance(2, 3), stall_at: r.below(5) as u32, consume, published: r.below(left as u64 + 1) as usize, poison: r.chance(1, 6) }
+}
+
+pub fn run_d(seed: u64, mut ov: impl FnMut(&mut engine::Cfg)) -> ! {
+    let p = gen_d(seed);
+    let mut cfg = swarm_cfg(seed, &Swarm { est_len: 3000, stalls: false, ..swarm() });
+    cfg.alloc_mode = if p.poison { 2 } else { 1 };
+    // time passes while somebody runs: a helper spinning on a block the sleeping taker is
+    // about to close gets on when the taker wakes up
+    cfg.tick_ns = 25;
+    ov(&mut cfg);
+    engine::init(cfg);
+    engine::set_extra("params", engine::json_str(&format!("{:?}", p)));
+
+    let q: Arc<spmc::Queue<Tok>> = Arc::new(spmc::Queue::new());
+    let mut all_ids: Vec<u32> = Vec::new();
+    let mut next = 0u32;
+    // set-up (single threaded): head at `popped`, tail at `pushed`
+    for _ in 0..p.pushed {
+        all_ids.push(next);
+        q.push(Tok::new(next));
+        next += 1;
+    }
+    for _ in 0..p.popped {
+        match q.pop() {
+            Some(t) => taken(t.id(), "set-up"),
+            None => violation("set-up: pop returned None although values are queued"),
+        }
+    }
+    let taker_done = Arc::new(AtomicU32::new(0));
+    let mut actors = Vec::new();
+    {
+        let (q, bulk, stall_at, td) = (q.clone(), p.bulk, p.stall_at, taker_done.clone());
+        actors.push(engine::spawn("taker", move || {
+            // held up for a long (virtual) time inside the call, between its loads and its CAS
+            engine::stall_self_at(stall_at, 2_000_000);
+            if bulk {
+                let v = q.bulk_pop();
+                for t in v.iter() {
+                    taken(t.id(), "taker (bulk_pop)");
+                }
+            } else if let Some(t) = q.pop() {
+                taken(t.id(), "taker (pop)");
+            }
+            engine::disarm_stall();
+            td.store(1, Ordering::Relaxed);
+        }));
+    }
+    let all = Arc::new(Mutex::new(all_ids));
+    {
+        let (q, all, td) = (q.clone(), all.clone(), taker_done.clone());
+        let (consume, left, published) = (p.consume, p.pushed - p.popped, p.published);
+        actors.push(engine::spawn("owner+helper", move || {
+            // wait until the taker is being held up (or got through without)
+            while engine::stall_log().is_empty() && td.load(Ordering::Relaxed) == 0 {
+                engine::yield_point();
+            }
+            let mut next = next;
+            let mut push = |n: usize, q: &spmc::Queue<Tok>| {
+                for _ in 0..n {
+                    all.lock().unwrap().push(next);
+                    q.push(Tok::new(next));
+                    next += 1;
+                }
+            };
+            // consume `consume` values (pushing what is needed), then leave `published` values
+            // queued: the stale claim covers `left` slots starting at the new head
+            // (push and pop in turns: a block is freed before the next one is allocated, so the
+            // addresses alternate as they do in a running scheduler)
+            let mut queued = left;
+            for _ in 0..consume {
+                if queued == 0 {
+                    push(1, &q);
+                    queued += 1;
+                }
+                match q.pop() {
+                    Some(t) => {
+                        taken(t.id(), "helper");
+                        queued -= 1;
+                    }
+                    None => {
+                        // the taker got its values before it was held up
+                        queued = 0;
+                    }
+                }
+            }
+            while queued > 0 {
+                match q.pop() {
+                    Some(t) => taken(t.id(), "helper"),
+                    None => break,
+                }
+                queued -= 1;
+            }
+            push(published, &q);
+            // now the taker wakes up (2 ms); afterwards keep pushing slowly until it is done:
+            // a taker that claimed unfilled slots completes as soon as they are filled
+            engine::sleep(2_500_000);
+            let mut extra = 0;
+            while td.load(Ordering::Relaxed) == 0 && extra < 200 {
+                push(1, &q);
+                extra += 1;
+                engine::sleep(1_000_000);
+            }
+        }));
+    }
+    engine::set_vt_limit(engine::now() + 2_000_000_000);
+    for a in actors {
+        engine::join(a);
+    }
+    if taker_done.load(Ordering::Relaxed) == 0 {
+        violation("the taker never completed although the owner kept pushing");
+    }
+    loop {
+        let v = q.bulk_pop();
+        if v.is_empty() {
+            break;
+        }
+        for t in v.iter() {
+            taken(t.id(), "final drain");
+        }
+    }
+    match Arc::try_unwrap(q) {
+        Ok(q) => drop(q),
+        Err(_) => violation("harness: queue still shared"),
+    }
+    check_all_taken(&all.lock().unwrap());
     engine::set_extra("alloc_reuse", format!("{}", crate::alloc::REUSED.load(Ordering::Relaxed)));
     engine::finish_ok()
 }
